@@ -10,15 +10,26 @@ random generator reaches only rarely:
  failure_then_shield
                     a member fails while the group is only effectively cancelled through an
                     enclosing scope, then a shield cuts that off (F12)               -> C02
+ shielded_group_failure
+                    a member fails in a group whose OWN scope is shielded while every other
+                    task of the group sits in a shielded section (delivery winds down); they
+                    then leave the section and block in ordinary code               -> C02
  scope_chains       exhaustive: scope chains of depth <= 3 x every shield assignment x every
                     subset of scopes cancelled x cancel timing x canceller          -> C04
  scope_histories    sequences of 1-6 scopes entered and left one after another on one task,
                     0-5 re-deliveries before each exit, nested hand-over            -> C05
+ nested_handover    chains of 3-4 scopes on one task: a deep scope is cancelled and delivered, an
+                    outer one is cancelled while the host still does shielded cleanup inside
+                    the deep one, never-cancelled scopes in between must relay the pending
+                    uncancel count                                                  -> C05
  start_sweep        child = k checkpoints then started / raise / return / block, then more
                     work / raise / return, cleanup variants; caller's or group's scope
                     cancelled at every cycle, by self / sibling / agent             -> C07
  aexit_cancel_sweep cancels arriving at every cycle while the host is inside __aexit__ with
                     children finishing in the same cycle                            -> C01
+ drain_spawn        a task that is NOT a member spawns into a group at every cycle around the
+                    instant its last member finishes while the host is parked in __aexit__
+                    (the window between the last done-callback and the host's wake-up)  -> C01
 """
 
 from __future__ import annotations
@@ -46,6 +57,31 @@ def empty_exit_spawn():  # noqa: ANN201
                                 ["cp", j], ["group", 2, [], [["cp", m]] if m else []], ["cp", 3],
                             ]]]  # fmt: skip
                             yield _p(cfg, root, [], "fam:empty_exit_spawn")
+
+
+def drain_spawn():  # noqa: ANN201
+    for cfg in CFGS:
+        for n in (1, 2, 3):  # length of the member(s) whose end drains the group
+            for members in (1, 2):
+                for k in range(0, n + 6):  # outside spawner's delay: sweeps across the drain
+                    for order in ("spawner-first", "spawner-last"):
+                        for how in ("start_soon", "create_task"):
+                            for child_body in ([["cp", 3]], [["sleep", 1]], [["forever"]]):
+                                late = {"tid": 9, "how": how, "body": child_body}
+                                spawner = {"tid": 1, "how": "start_soon",
+                                           "body": [["cp", k], ["spawn", 2, late]]}  # fmt: skip
+                                inner_members = [
+                                    {"tid": 3 + i, "how": "start_soon", "body": [["cp", n]]}
+                                    for i in range(members)
+                                ]
+                                inner = ["group", 2, inner_members, []]
+                                if order == "spawner-first":
+                                    root = [["group", 1, [spawner], [inner, ["cp", 2]]]]
+                                else:
+                                    root = [["group", 1, [], [
+                                        ["spawn", 1, spawner], inner, ["cp", 2]]]]  # fmt: skip
+
+                                yield _p(cfg, root, [], "fam:drain_spawn")
 
 
 def aexit_cancel_sweep():  # noqa: ANN201
@@ -103,6 +139,35 @@ def failure_then_shield():  # noqa: ANN201
                         ]],
                     ]]]]]  # fmt: skip
                     yield _p(cfg, root, [], "fam:failure_then_shield")
+
+
+def shielded_group_failure():  # noqa: ANN201
+    for cfg in CFGS:
+        for fail_at in (0, 1, 2):  # failing member's delay
+            for stay in (2, 3, 5):  # cycles the others stay shielded after the failure
+                for who in ("host", "sibling", "both"):
+                    for blocker in (["forever"], ["sleep", 4], ["cp", 8]):
+                        for when_shield in ("at-entry", "before-failure"):
+                            failing = {"tid": 1, "how": "start_soon",
+                                       "body": [["cp", fail_at], ["raise", 1]]}  # fmt: skip
+                            section = ["scope", "s3", True, None, [["cp", fail_at + stay]]]
+                            members = [failing]
+                            if who in ("sibling", "both"):
+                                members.append({"tid": 2, "how": "start_soon", "body": [
+                                    ["scope", "s4", True, None, [["cp", fail_at + stay]]], blocker]})  # fmt: skip
+
+                            body: list = [["shield", "g1", True]]
+                            if when_shield == "before-failure":
+                                body = [["cp", 0]] + body
+
+                            if who in ("host", "both"):
+                                body += [section, blocker]
+                            else:
+                                body += [["cp", 1]]
+
+                            root = [["scope", "s1", False, None, [["group", 1, members, body]]],
+                                    ["cp", 1]]  # fmt: skip
+                            yield _p(cfg, root, [], "fam:shielded_group_failure")
 
 
 def scope_chains():  # noqa: ANN201
@@ -172,6 +237,33 @@ def scope_histories():  # noqa: ANN201
                             ops.append(["sleep", 0.5])
 
                         yield _p(cfg, ops, [], "fam:scope_histories")
+
+
+def nested_handover():  # noqa: ANN201
+    for cfg in CFGS:
+        for depth in (2, 3, 4):
+            sids = [f"s{i + 1}" for i in range(depth)]
+            for deep in range(1, depth):
+                for outer in range(0, deep):
+                    for cleanup_len in (2, 4):
+                        for a in (1, 2):
+                            for d in range(0, cleanup_len + 2):
+                                for place in ("before", "after"):
+                                    for redeliver in (0, 2):
+                                        blk: list = [["cleanup", [["forever"]], cleanup_len, "reraise"]]
+                                        for _ in range(redeliver):
+                                            blk = [["catch_then", blk, [["cp", 1]]]]
+
+                                        body = blk
+                                        for i in reversed(range(depth)):
+                                            body = [["scope", sids[i], False, None, body + [["cp", 1]]]]
+
+                                        agents = [
+                                            {"at": a, "place": place, "do": ["cancel", sids[deep]]},
+                                            {"at": a + d, "place": place, "do": ["cancel", sids[outer]]},
+                                        ]
+                                        yield _p(cfg, body + [["cp", 2], ["sleep", 0.5]], agents,
+                                                 "fam:nested_handover")  # fmt: skip
 
 
 def start_sweep():  # noqa: ANN201
